@@ -27,7 +27,7 @@ func init() {
 		Explain: "Decided, for the twelve listed formats' extractor packages: D1 scanner error discipline — every bufio.Scanner loop is followed, on the path from Scan()==false to a nil-error return, by a call of Err() on the same scanner whose result reaches the returned error (a check inside the loop body is dead: Err() is nil while Scan() is true); " +
 			"D2 end of input with a pending record — dpkg: after ReadMIMEHeader reported io.EOF the header it returned is still processed (the loop ends only after that iteration); apk: the record reader returns a record on a blank line only when the record is non-empty, and returns the pending record together with scanner.Err() at end of input; the record loop ends only on an empty record; " +
 			"D3 only sanctioned omissions — in every loop that appends packages, the branch decisions after which the current element/record can no longer be appended are exactly the audited ones (frozen table c03Sanctioned, one row per decision, rendered by the definition of the tested value): a new decision of this kind (an added filter, de-duplication, early exit) and a removed one (e.g. the dpkg not-installed filter) are both reported. " +
-			"NOT decided: that exactly the N (name, version) pairs come out for all layouts (CRLF, comments, ordering, de-duplication keys of JSON/TOML formats) — value-level, needs generators and an oracle.",
+			"Added in round 2: D3-predicates — boolean helpers deciding a branch of a package loop are frozen as truth tables over their atomic tests. NOT decided: that exactly the N (name, version) pairs come out for all layouts (CRLF, comments, ordering, de-duplication keys of JSON/TOML formats) — value-level, needs generators and an oracle.",
 		Assume: []string{"the frozen omission table (c03_table.go) was confirmed by reading each row"},
 		Run:    runC03,
 		Controls: []Mutant{
